@@ -24,7 +24,7 @@ for f in "${PATCHES[@]}"; do
   if ! git -C "$WT" apply "$f" 2>/dev/null; then echo "$name APPLY-FAILED" | tee -a "$OUT"; fail=1; continue; fi
   blog=$(cd "$H" && cargo build --release --offline 2>&1); bcode=$?
   for prop in "${PROPS[@]}"; do
-    if [ $bcode -eq 0 ] && [ "$prop" = C09 ]; then
+    if [ $bcode -eq 0 ] && { [ "$prop" = C09 ] || [ "$prop" = C12 ]; }; then
       mkdir -p "$S/e2e"
       blog=$(cd "$WT" && CARGO_TARGET_DIR="$S/e2e" cargo build --bin acb --no-default-features --features cliapp --offline 2>&1); bcode=$?
       [ -e "$S/e2e/libsimseed.so" ] || cc -shared -fPIC -O1 -o "$S/e2e/libsimseed.so" /verif/harness/preload/simseed.c -ldl
